@@ -106,3 +106,35 @@ def errkind(x, r):
         k = x.deref(e.f['kind'])
         return k.last() if isinstance(k, ConstV) else str(k)
     return 'Err'
+
+
+def drop_value(x, v, seen=None):
+    """model of dropping an owned value: Arc reference counts, Drop impls from the source, recursively"""
+    seen = seen if seen is not None else set()
+    if id(v) in seen:
+        return
+    seen.add(id(v))
+    if isinstance(v, Arc):
+        v.strong -= 1
+        if v.strong <= 0:
+            drop_value(x, v.v, seen)
+        return
+    if isinstance(v, Lock):
+        drop_value(x, v.cell.v, seen)
+        return
+    if isinstance(v, Struct):
+        m = x.p.methods.get((v.name, 'drop'))
+        if m is not None and m.get('_trait') == 'Drop':
+            try:
+                x.call_fn(m, [], v)
+            except Panic:
+                pass
+        for f in list(v.f.values()):
+            drop_value(x, f, seen)
+        return
+    if isinstance(v, VMap):
+        for f in list(v.d.values()):
+            drop_value(x, f, seen)
+    elif isinstance(v, VVec):
+        for f in v.items:
+            drop_value(x, f, seen)
